@@ -165,7 +165,13 @@ def filehelper_cases() -> list[dict]:
             for api in ("generic", "rdflib") for entry in ("flat_to_file", "grouped_to_file")
             for cls in ("triple", "quad") for dl in (True, False)
             for name in ("", "sensor-é", "n" * 120) for g, r in ((False, False), (True, True))
-            for ns in (False, True) if not (api == "rdflib" and g)]
+            for ns in (False, True) if not (api == "rdflib" and g)] + [
+        # the rdflib plugin (Graph.serialize) with explicit options, flags included
+        {"part": "filehelpers", "api": "rdflib", "entry": entry, "cls": cls, "delimited": dl,
+         "stream_name": "", "generalized": g, "rdf_star": r, "ns": False}
+        for entry in ("graph_serialize_options", "graph_serialize_stream")
+        for cls in ("triple", "quad") for dl in (True, False)
+        for g in (False, True) for r in (False, True)]
 
 
 def run_filehelper(case: dict) -> list[tuple[str, str]]:
